@@ -1011,14 +1011,14 @@ theorem deliver_forwarded (token : Str) (up : Bool) (h1 : Headers) (ctx : Identi
 theorem serve_spec (token : Str) (raw : List (Str × Str)) (u : Identity) (az : Attrs → Decision) (up : Bool)
     (hv : rawValid raw = true) :
     (∃ s, expected raw u az = .answered s ∧
-      ((s = 500 ∧ serve token raw (some u) az up = .internalError) ∨ (s = 403 ∧ serve token raw (some u) az up = .forbidden))) ∨
+      ((s = 500 ∧ serveWith token raw (some u) az up = .internalError) ∨ (s = 403 ∧ serveWith token raw (some u) az up = .forbidden))) ∨
     (∃ ctx h1, expected raw u az = .forward ctx ∧ (∀ e ∈ h1, canonicalKey e.1 = e.1) ∧ (∀ e ∈ h1, e.1 ≠ hAuthorization) ∧
-      hget h1 hImpUser = [] ∧ serve token raw (some u) az up = deliver token up h1 ctx) := by
+      hget h1 hImpUser = [] ∧ serveWith token raw (some u) az up = deliver token up h1 ctx) := by
   have hS1 : ∀ e ∈ authnStrip (parsed raw), canonicalKey e.1 = e.1 := by
     intro e he; simp only [authnStrip, hdel, List.mem_filter] at he; exact parsed_canonical raw e he.1
   have hS2 : ∀ e ∈ authnStrip (parsed raw), e.1 ≠ hAuthorization := by
     intro e he; simp only [authnStrip, hdel, List.mem_filter] at he; simpa using he.2
-  simp only [serve, parse_eq, hv, if_true, impersonate_spec raw hv u az, expected]
+  simp only [serveWith, parse_eq, hv, if_true, impersonate_spec raw hv u az, expected]
   by_cases hr : impersonationRequested raw = true
   · by_cases hm : malformed raw = true
     · exact Or.inl ⟨500, by simp [hr, hm]⟩
@@ -1036,14 +1036,14 @@ theorem serve_spec (token : Str) (raw : List (Str × Str)) (u : Identity) (az : 
     authenticated, the specification says "forward as `ctx`", every value of `ctx` survives a header, and what arrives is
     what `WrapRequest` makes of a header set without `Authorization`, without `Impersonate-User`, with canonical names. -/
 theorem serve_forwarded (token : Str) (raw : List (Str × Str)) (auth : Option Identity) (az : Attrs → Decision)
-    (up : Bool) (recv : Headers) (ctx : Identity) (h : serve token raw auth az up = .forwarded recv ctx) :
+    (up : Bool) (recv : Headers) (ctx : Identity) (h : serveWith token raw auth az up = .forwarded recv ctx) :
     ∃ u h1, rawValid raw = true ∧ auth = some u ∧ expected raw u az = .forward ctx ∧
       (∀ e ∈ h1, canonicalKey e.1 = e.1) ∧ (∀ e ∈ h1, e.1 ≠ hAuthorization) ∧ hget h1 hImpUser = [] ∧
       checkImpersonationValues ctx = true ∧
       recv = sendOver up (wrapHeaders (if up then h1 else bearerAuth token h1) ctx) := by
   by_cases hv : rawValid raw = true
   · cases auth with
-    | none => simp [serve, parse_eq, hv] at h
+    | none => simp [serveWith, parse_eq, hv] at h
     | some u =>
       rcases serve_spec token raw u az up hv with ⟨s, _, ⟨_, hs⟩ | ⟨_, hs⟩⟩ | ⟨ctx0, h1, he, I1, I2, I3, hs⟩
       · rw [hs] at h; cases h
@@ -1052,7 +1052,7 @@ theorem serve_forwarded (token : Str) (raw : List (Str × Str)) (auth : Option I
         obtain ⟨hc, hk, hr⟩ := deliver_forwarded token up h1 ctx0 I2 I3 recv ctx h
         subst hc
         exact ⟨u, h1, hv, rfl, he, I1, I2, I3, hk, hr⟩
-  · simp [serve, parse_eq, hv] at h
+  · simp [serveWith, parse_eq, hv] at h
 
 /-! ## values a header carries -/
 
@@ -1101,6 +1101,49 @@ theorem check_valuesCarried (up : Bool) (id : Identity) (h : checkImpersonationV
   simp only [valuesCarried, Bool.and_eq_true, beq_iff_eq, List.all_eq_true]
   exact ⟨⟨survives_carried up _ h1, fun g hg => survives_carried up g (h2 g hg)⟩,
     fun e he v hv => survives_carried up v (h3 e he v hv)⟩
+
+/-! ## the wired authorizer -/
+
+theorem wired_allowed {u : Identity} {policy : Attrs → Decision} {a : Attrs}
+    (h : (wiredAuthorizer u policy a).allowed = true) : (policy (jsonAttrs a)).allowed = true := by
+  simp only [wiredAuthorizer] at h
+  split at h
+  · simp [Decision.allowed] at h
+  · exact h
+
+/-- the identity of `.forward` and the statuses 400 / 401 / 500 do not depend on the authorizer; only "forward the requested
+    identity" versus 403 does -/
+theorem expectedFor_cases (raw : List (Str × Str)) (auth : Option Identity) :
+    (∃ e, (∀ az', expectedFor raw auth az' = e)) ∨
+    (∃ u, auth = some u ∧ rawValid raw = true ∧ impersonationRequested raw = true ∧ malformed raw = false ∧
+      ∀ az, expectedFor raw auth az = if allAllowed az raw then .forward (requestedIdentity raw) else .answered 403) := by
+  by_cases hv : rawValid raw = true
+  · have hv' : raw.all (fun l => validName l.1 && validValue l.2) = true := hv
+    cases auth with
+    | none => exact Or.inl ⟨.answered 401, fun az' => by simp [expectedFor, hv']⟩
+    | some u =>
+      by_cases hr : impersonationRequested raw = true
+      · by_cases hm : malformed raw = true
+        · exact Or.inl ⟨.answered 500, fun az' => by simp [expectedFor, hv', expected, hr, hm]⟩
+        · exact Or.inr ⟨u, rfl, hv, hr, by simpa using hm, fun az => by simp [expectedFor, hv', expected, hr, hm]⟩
+      · exact Or.inl ⟨.forward u, fun az' => by simp [expectedFor, hv', expected, hr]⟩
+  · have hv' : raw.all (fun l => validName l.1 && validValue l.2) = false := by simpa [rawValid] using hv
+    exact Or.inl ⟨.answered 400, fun az' => by simp [expectedFor, hv']⟩
+
+theorem allAllowed_wired {u : Identity} {policy : Attrs → Decision} {raw : List (Str × Str)}
+    (h : allAllowed (wiredAuthorizer u policy) raw = true) : allAllowed (fun a => policy (jsonAttrs a)) raw = true := by
+  simp only [allAllowed, List.all_eq_true] at h ⊢
+  exact fun a ha => wired_allowed (h a ha)
+
+theorem allAllowed_carried {policy : Attrs → Decision} {raw : List (Str × Str)} (hc : recordsCarried raw = true) :
+    allAllowed (fun a => policy (jsonAttrs a)) raw = allAllowed policy raw := by
+  simp only [recordsCarried, List.all_eq_true, beq_iff_eq] at hc
+  simp only [allAllowed]
+  rw [Bool.eq_iff_iff]
+  simp only [List.all_eq_true]
+  constructor
+  · intro h a ha; have := h a ha; rwa [hc a ha] at this
+  · intro h a ha; rw [hc a ha]; exact h a ha
 
 /-! ## small facts used by the property theorems -/
 
